@@ -1,4 +1,6 @@
 //! Property check C10 — what was acknowledged survives any crash; what was not is invisible.
+mod fault_layer;
+mod host_layer;
 mod probe;
 mod store_layer;
 mod util;
@@ -26,6 +28,8 @@ fn main() {
         let mut st = util::Stats::default();
         let res = match case["layer"].as_str() {
             Some("store") => store_layer::replay(&case, &mut st),
+            Some("host") | Some("host-continue") => host_layer::replay(&case, &mut st),
+            Some("store-fault") | Some("host-fault") => fault_layer::replay(&case, &mut st),
             other => Err(format!("replay of layer {other:?} not supported")),
         };
         if let Err(e) = res {
@@ -45,6 +49,17 @@ fn main() {
         probe::run();
         std::process::exit(0);
     }
-    let _logs = store_layer::run(&r);
+    let only = std::env::var("C10_ONLY").unwrap_or_default();
+    if only.is_empty() || only.contains("store") {
+        let _logs = store_layer::run(&r);
+    }
+    let host = if only.is_empty() || only.contains("host") || only.contains("fault") {
+        host_layer::run(&r)
+    } else {
+        None
+    };
+    if only.is_empty() || only.contains("fault") {
+        fault_layer::run(&r, host.as_ref());
+    }
     r.finish();
 }
